@@ -1,6 +1,7 @@
 (* C11 model: the elementary forecasters over integer positions (time = start + position).
    Executable definitions only.  The naive kernel mirrors naive.py `_predict_last_window`
-   (NaN padding at the front, row-major reshape, column nanmean, tiling, `to_indexer` = step - 1),
+   (NaN padding at the front, row-major reshape, column nanmean, tiling, `to_indexer` = step - 1;
+   everything sized by the window actually available),
    the window selection mirrors `_get_last_window` / `_predict_in_sample` (moving cutoff, window
    cut at the start of the series), `resolve_wl` mirrors `NaiveForecaster.fit`.
    None of type `oq` stands for NaN; `Err` for a raised ValueError/IndexError. *)
@@ -58,46 +59,57 @@ Definition steps_vals (vals : list oq) (sp : Z) (hs : list Z) : res (list oq) :=
 
 Definition const_all (x : oq) (hs : list Z) : list oq := map (fun _ => x) hs.
 
-(* _predict_last_window on a window `w` (possibly shorter than the resolved window length `wl`
-   when the moving cutoff is near the start of the series), for steps hs >= 1 *)
-Definition kernel (s : strategy) (sp wl : Z) (w : list oq) (hs : list Z) : res (list oq) :=
+(* _predict_last_window on the window `w` it actually gets: for in-sample forecasts whose moving
+   cutoff is near the start of the series `w` is shorter than the resolved window length, and
+   since the fixes 73893fc / ea15ad0 / fe97d94 the code uses len(w) everywhere (window_length_
+   no longer appears in it).  Steps hs >= 1. *)
+Definition kernel (s : strategy) (sp : Z) (w : list oq) (hs : list Z) : res (list oq) :=
   if (zlen w =? 0) || all_nan w then Ok (const_all None hs)
   else match s with
   | SLast =>
-      if sp =? 1 then Ok (const_all (last w None) hs) else steps_vals w sp hs
+      if sp =? 1 then Ok (const_all (last w None) hs)
+      else
+        (* fewer than sp observations: NaN padding at the front *)
+        let padded := if zlen w <? sp then repeat (None : oq) (Z.to_nat (sp - zlen w)) ++ w
+                      else w in
+        steps_vals padded sp hs
   | SMean =>
       if sp =? 1 then Ok (const_all (nanmean w) hs)
       else
-        let rem := wl mod sp in
+        let rem := zlen w mod sp in
         let pad := if 0 <? rem then sp - rem else 0 in
         let padded := repeat (None : oq) (Z.to_nat pad) ++ w in
-        let rows := ceil_div wl sp in
+        (* reshape(-1, sp) *)
+        let rows := zlen padded / sp in
         if zlen padded =? rows * sp then
           let table := chunks (Z.to_nat rows) (Z.to_nat sp) padded in
           let ypred := map (fun j => nanmean (zcol j table)) (zrange 0 sp 1) in
           steps_vals ypred sp hs
         else Err
   | SDrift =>
-      if wl =? 1 then Ok (const_all None hs)
+      if zlen w <? 2 then Ok (const_all None hs)
       else match hd None w, last w None with
            | Some a, Some b =>
-               Ok (map (fun h => Some (b + inject_Z h * ((b - a) / inject_Z (wl - 1)))%Q) hs)
+               Ok (map (fun h => Some (b + inject_Z h * ((b - a) / inject_Z (zlen w - 1)))%Q) hs)
            | _, _ => Err
            end
   end.
 
-(* NaiveForecaster.fit: window length per strategy, and the rejected configurations *)
+(* NaiveForecaster.fit: parameter validation (check_sp / check_window_length, only where fit calls
+   them: "last" ignores window_length, "drift" ignores sp), window length per strategy, and the
+   rejected configurations - an explicit or default window shorter than one season for the
+   seasonal mean (ae04e61 for the default), a window / training series of a single point for
+   drift (9814f9c for the default), a window longer than the training series *)
+Definition wl_invalid (wlo : option Z) : bool :=
+  match wlo with Some w => w <? 1 | None => false end.
 Definition resolve_wl (s : strategy) (sp : Z) (wlo : option Z) (n : Z) : res Z :=
+  let given := match wlo with Some w => w | None => n end in
   let r := match s with
-    | SLast => Ok (if sp =? 1 then 1 else sp)
-    | SMean => match wlo with
-               | Some w => if negb (sp =? 1) && (w <? sp) then Err else Ok w
-               | None => Ok n
-               end
-    | SDrift => match wlo with
-                | Some w => if w =? 1 then Err else Ok w
-                | None => Ok n
-                end
+    | SLast => if sp =? 1 then Ok 1 else if sp <? 1 then Err else Ok sp
+    | SMean => if wl_invalid wlo || (sp <? 1) then Err
+               else if negb (sp =? 1) && (given <? sp) then Err else Ok given
+    | SDrift => if wl_invalid wlo then Err
+                else if given =? 1 then Err else Ok given
     end in
   match r with Ok w => if n <? w then Err else Ok w | Err => Err end.
 
@@ -118,8 +130,8 @@ Definition naive_predict_wl (s : strategy) (sp wl : Z) (ys : list oq) (fh : list
   let n := zlen ys in
   let ins := filter (fun r => r <=? 0) fh in
   let oos := filter (fun r => 0 <? r) fh in
-  rconcat (map (fun r => kernel s sp wl (window ys (n - 2 + r) wl) [1]) ins
-           ++ match oos with [] => [] | _ => [kernel s sp wl (window ys (n - 1) wl) oos] end).
+  rconcat (map (fun r => kernel s sp (window ys (n - 2 + r) wl) [1]) ins
+           ++ match oos with [] => [] | _ => [kernel s sp (window ys (n - 1) wl) oos] end).
 
 Definition naive_predict (s : strategy) (sp : Z) (wlo : option Z) (ys : list oq) (fh : list Z)
   : res (list oq) :=
